@@ -408,13 +408,26 @@ def _stores_on(p: Path, loc) -> List[Event]:
     return [e for e in p.events if e.kind == 'store' and e.data.get('loc') == loc]
 
 
-def check_keyed_insert(cx: Cx, fn_q: str, loc, container: Term, key: Term, value: Term, rule='R-DISC', what=None, unroll=1):
-    """Every non-raising CFG path of fn stores container[key] = value exactly once, under `key not in container`."""
+def _rejects_only(cx: Cx, fn, p, exc: str, must: Formula, what: str, rule: str) -> None:
+    """A path that rejects the operation with the documented error `exc` has established `must` (the key is taken / unknown):
+    a legal operation is never refused for another reason."""
+    if p.end == 'raise' and p.last.data.get('direct') and documented_base(cx, p.last.data.get('exc'), {exc}) == exc and \
+            implies(p.cond, must) is not None:
+        cx.violation(rule, fn.qualname, f"{exc}-only-when-{what.replace(' ', '-')}",
+                     f"{fn.qualname} rejects the operation with {exc} on a path [{p.cond!r}] that has not established that {what}: a legal "
+                     f"operation is refused", where=cx.where(fn, p.last.line), path=p.lines())
+
+
+def check_keyed_insert(cx: Cx, fn_q: str, loc, container: Term, key: Term, value: Term, rule='R-DISC', what=None, unroll=1, dup_exc=None):
+    """Every non-raising CFG path of fn stores container[key] = value exactly once, under `key not in container`; with dup_exc,
+    that error is raised only when the key is taken."""
     fn = cx.fn(fn_q)
     what = what or f"{loc[1]}[{key!r}] = {value!r}"
     n = 0
     for p in cx.walker.paths(fn, WalkOptions(unroll=unroll)):
         if p.end == 'raise':
+            if dup_exc:
+                _rejects_only(cx, fn, p, dup_exc, AIn(key, container), 'the key is taken', rule)
             continue
         n += 1
         st = _stores_on(p, loc)
@@ -439,12 +452,15 @@ def check_keyed_insert(cx: Cx, fn_q: str, loc, container: Term, key: Term, value
         cx.inconclusive(rule, fn.qualname, 'no success path found', where=cx.where(fn), function=fn.qualname)
 
 
-def check_keyed_delete(cx: Cx, fn_q: str, loc, container: Term, key: Term, rule='R-DISC', unroll=1):
-    """Every non-raising CFG path of fn deletes container[key] exactly once, under `key in container`."""
+def check_keyed_delete(cx: Cx, fn_q: str, loc, container: Term, key: Term, rule='R-DISC', unroll=1, missing_exc=None):
+    """Every non-raising CFG path of fn deletes container[key] exactly once, under `key in container`; with missing_exc, that
+    error is raised only when the key is unknown."""
     fn = cx.fn(fn_q)
     n = 0
     for p in cx.walker.paths(fn, WalkOptions(unroll=unroll)):
         if p.end == 'raise':
+            if missing_exc:
+                _rejects_only(cx, fn, p, missing_exc, f_not(AIn(key, container)), 'the key is unknown', rule)
             continue
         n += 1
         st = _stores_on(p, loc)
